@@ -75,6 +75,9 @@ CHECKS.update({
     "C10": _std("exploration", "Model-based history generation + exhaustive short histories for Budget; generated multi-policy runs sharing one budget vs window model",
         "Generated consume/remaining/advance histories with boundary ages against an independent window model plus the sliding-window bound; all histories up to length 6/7 enumerated for 4 configurations; 2-3 policies (sync and async) sharing a pre-aged budget, every consume result and every retry/budget_exhausted event checked against the model.",
         "Budget reads time.monotonic through the dispatcher; times on the exact k/64 s grid", "DESIGN.md §3 C10"),
+    "C19": _std("exploration", "Hypothesis-generated hostile exception objects + exhaustive integer and SQLSTATE ranges against an independent table/precedence model; metamorphic renaming for strict",
+        "Generated exception types/attribute values/args (directed so that the attribute each classifier reads is present) checked for totality and against a table model written from the docstrings; every int in [-50,1100] in every position and every 5-char SQLSTATE over a 10-letter alphabet are enumerated; optional-library classifiers compared with default_classifier with their library made unimportable.",
+        "the model leaves inputs the documentation does not pin (bools as codes, http 422, non-string sqlstate, non-ASCII message text) unchecked beyond totality; marker-over-code precedence asserted for default/strict only", "DESIGN.md §3 C19"),
 })
 
 PENDING_REASON = "check not built yet in this snapshot (work in progress; see DESIGN.md §3 for the planned generated-input check)"
